@@ -332,6 +332,72 @@ func runPredRow(r predRow, emit func(mode string, negated bool, concrete string,
 			v := true
 			emit("validate", false, "true", len(sch.Validate(&v)) == 0)
 		}
+	case "uuidsweep":
+		members := map[string][]string{"digit": {"0", "9", "5"}, "hex-lower": {"a", "f", "c"}, "hex-upper": {"A", "F", "D"}, "g-z": {"g", "z"}, "G-Z": {"G", "Z"},
+			"ctrl-low": {"\x00", "\x01", "\x0f"}, "ctrl-10-19": {"\x10", "\x11", "\x16", "\x19"}, "space": {" "}, "punct": {"/", ":", "@", "`", "{", "_"},
+			"hyphen": {"-"}, "high-byte": {"\xb0", "\xff", "\u00e9"}, "fullwidth-digit": {"\uff11", "\u0661"}}[r.Subj]
+		base := "123e4567-e89b-12d3-a456-426614174000"
+		for _, mbr := range members {
+			subj := base[:r.N-1] + mbr + base[r.N:]
+			strRun(func(s *z.StringSchema[string], neg bool) *z.StringSchema[string] {
+				if neg {
+					return s.Not().UUID()
+				}
+				return s.UUID()
+			}, subj, true)
+		}
+	case "timefar":
+		far := map[string]time.Time{"y0001": time.Date(1, 1, 2, 0, 0, 0, 0, time.UTC), "y1500": time.Date(1500, 6, 1, 0, 0, 0, 0, time.UTC), "y1677": time.Date(1677, 1, 1, 0, 0, 0, 0, time.UTC),
+			"y2263": time.Date(2263, 1, 1, 0, 0, 0, 0, time.UTC), "y2500": time.Date(2500, 1, 1, 0, 0, 0, 0, time.UTC), "y9999": time.Date(9999, 12, 31, 0, 0, 0, 0, time.UTC)}[r.Subj]
+		// both ways round: the far instant as subject against an ordinary parameter, and an ordinary subject against the far parameter
+		mk := func(p time.Time) *z.TimeSchema {
+			switch r.Test {
+			case "after":
+				return z.Time().After(p)
+			case "before":
+				return z.Time().Before(p)
+			}
+			return z.Time().EQ(p)
+		}
+		var d time.Time
+		emit("parse", false, fmt.Sprint(far, " vs ", predT0), len(mk(predT0).Parse(far, &d)) == 0)
+		v := far
+		emit("validate", false, fmt.Sprint(far, " vs ", predT0), len(mk(predT0).Validate(&v)) == 0)
+		// mirrored: subject predT0 against parameter far: after(far) holds iff predT0 > far iff sgn < 0, etc.
+		want := map[string]bool{"after": r.S < 0, "before": r.S > 0, "eq": false}[r.Test]
+		got := len(mk(far).Parse(predT0, &d)) == 0
+		plain := map[string]bool{"after": r.S > 0, "before": r.S < 0, "eq": false}[r.Test]
+		// reported relative to the row's own expectation: right iff the mirrored verdict is the mirrored predicate
+		emit("parse-mirrored", false, fmt.Sprint(predT0, " vs ", far), (got == want) == plain)
+	case "slicelen-bad-item":
+		// one element fails its own test: the slice-level test is decided all the same
+		elems := make([]any, r.S)
+		vals := make([]int, r.S)
+		for i := range elems {
+			elems[i], vals[i] = 1, 1
+		}
+		elems[0], vals[0] = 1000, 1000
+		mk := func() *z.SliceSchema {
+			e := z.Int().LT(100)
+			switch r.Test {
+			case "min":
+				return z.Slice(e).Min(r.N)
+			case "max":
+				return z.Slice(e).Max(r.N)
+			}
+			return z.Slice(e).Len(r.N)
+		}
+		has := func(m z.ZogIssueMap) bool {
+			for _, i := range m["$root"] {
+				if i.Code == r.Test {
+					return true
+				}
+			}
+			return false
+		}
+		var d []int
+		emit("parse", false, fmt.Sprint(elems), !has(mk().Parse(elems, &d)))
+		emit("validate", false, fmt.Sprint(vals), !has(mk().Validate(&vals)))
 	case "email":
 		strRun(func(s *z.StringSchema[string], neg bool) *z.StringSchema[string] {
 			if neg {
